@@ -138,7 +138,8 @@ def run_c29(chk, F, tier):
 
 def run_c30(chk, F, tier):
     chk.rule("R30", "every removal of a file from the analysis in the server reaches clear_push_file_diagnostics")
-    chk.assume("decides only 'a removed file ends with an empty published set'; convergence of published diagnostics after debounce is timing dependent and not decided")
+    chk.assume("decides 'a removed file ends with an empty published set' and two structural premises of convergence (a computed diagnosis is "
+               "always sent; cancellation tokens are per file); which task runs last under a given timing is not decided")
     idx = {}
     for b in F.bodies.values():
         for bb, c in b.calls():
@@ -179,4 +180,113 @@ def run_c30(chk, F, tier):
                       "push diagnostics the editor keeps showing the removed file's last diagnostics" % (rem.split("::")[-1], b.id),
                       b.loc(c["l"]), sample={"rule": "R30", "site": key, "verdict": "removed uris are returned to a caller that clears them"})
     chk.floor("removal sites in the server", n, 7)
+
+    # R30b: a computed diagnosis is always sent
+    chk.rule("R30b", "in the server's diagnostic tasks every successful diagnose_file result reaches ClientProxy::publish_diagnostics on "
+                     "every path (no result is withheld by a cache or a comparison with what was sent before)")
+    PUBLISH = LS + "::context::client::ClientProxy::publish_diagnostics"
+    DIAGNOSE = CA + "::diagnose_file"
+    if PUBLISH not in idx:
+        PUBLISH = next((k for k in idx if k.endswith("ClientProxy::publish_diagnostics")), PUBLISH)
+    ls_bodies = [b for b in F.bodies.values() if b.crate == LS and "::test" not in b.id]
+    must_publish = set()
+    for _ in range(4):
+        for b in ls_bodies:
+            if b.id in must_publish or b.kind not in ("fn",):
+                continue
+            pubs = {bb for bb, c in b.calls() if name(c) == PUBLISH or name(c) in must_publish}
+            if pubs and cfgutil.paths_avoiding(b.succ_map(), 0, set(b.returns()), pubs) is None:
+                must_publish.add(b.id)
+    nd = 0
+    for b in ls_bodies:
+        if "context::file_diagnostic" not in b.id:
+            continue
+        for bb, c in b.calls():
+            if name(c) != DIAGNOSE or len(c["d"]) != 1:
+                continue
+            if "::pull_" in b.id:
+                continue    # pull model: the diagnosis is the response of the request, nothing is pushed
+            nd += 1
+            key = "publish-after-diagnose@%s" % b.id.replace(LS + "::context::file_diagnostic::", "")
+            succ = b.succ_map()
+            # the Some edge of the switch on the result's discriminant
+            res = {c["d"][0]}
+            some_targets = []
+            for bi in sorted(cfgutil.reachable(succ, c["t"]) | {c["t"]}):
+                blk = b.blocks[bi]
+                for st in blk[1]:
+                    if st[0] == "a" and len(st[1]) == 1 and st[2][0] == "use" and st[2][1][0] in ("c", "m") and st[2][1][1][0] in res and len(st[2][1][1]) == 1:
+                        res.add(st[1][0])
+                t = blk[2]
+                if t[0] == "sw" and t[1][0] in ("c", "m"):
+                    dl = t[1][1][0]
+                    for st in blk[1]:
+                        if st[0] == "a" and st[1] == [dl] and st[2][0] == "disc" and st[2][1][0] in res:
+                            some_targets += [tb for v, tb in t[2] if v == 1] or [t[3]]
+            if not some_targets:
+                chk.violation("R30b", key, "the result of diagnose_file is not matched on Some/None here: cannot tell what happens to a computed diagnosis", b.loc(c["l"]))
+                continue
+            pubs = {x for x, cc in b.calls() if name(cc) == PUBLISH or name(cc) in must_publish}
+            wit = None
+            for s0 in some_targets:
+                p = cfgutil.paths_avoiding(succ, s0, set(b.returns()), pubs)
+                if p is not None:
+                    wit = p
+            chk.check(wit is None, "R30b", key,
+                      "a diagnosis computed by diagnose_file can reach the end of the task without publish_diagnostics (a path from the "
+                      "Some branch avoids every publishing call): the client keeps an older set although a fresh one was computed -- e.g. after "
+                      "clear_push_file_diagnostics sent [] and the same diagnostics come back" , b.loc(c["l"]),
+                      witness={"path_blocks": wit, "lines": sorted({b.blocks[x][2][1]["l"] for x in (wit or []) if b.blocks[x][2][0] == "call"})[:12]},
+                      sample={"rule": "R30b", "site": key, "verdict": "every path from the Some branch publishes"})
+    chk.floor("diagnose_file call sites in the diagnostic scheduler", nd, 2)
+
+    # R30c: one cancellation token per file id
+    chk.rule("R30c", "a token stored in FileDiagnostic.diagnostic_tokens is created for that one insert (no token is registered under several "
+                     "file ids): cancelling file K's pending task must not cancel another file's task")
+    import cfgutil as _c
+    import dataflow as _d
+    nins = 0
+    for b in ls_bodies:
+        if "context::file_diagnostic" not in b.id:
+            continue
+        succ = b.succ_map()
+        loops = None
+        for bb, c in b.calls():
+            if not name(c).endswith("HashMap::<K, V, S, A>::insert") and not name(c).endswith("::insert"):
+                continue
+            if not c["a"] or "CancellationToken" not in b.ty_str_op(c["a"][0]) or "FileId" not in b.ty_str_op(c["a"][0]):
+                continue
+            nins += 1
+            key = "token-per-file@%s" % b.id.replace(LS + "::context::file_diagnostic::", "")
+            # creation site of the stored token, through clones
+            created = set()
+            todo, seen = [c["a"][2]] if len(c["a"]) > 2 else [], set()
+            while todo:
+                op = todo.pop()
+                l = _d.operand_local(op)
+                if l is None or l in seen:
+                    continue
+                seen.add(l)
+                for r in _d.roots(b, l):
+                    if r[0] == "call":
+                        cc = b.blocks[r[1]][2][1]
+                        if name(cc).endswith("CancellationToken::new"):
+                            created.add(r[1])
+                        elif name(cc).endswith(("Clone>::clone", "::child_token")) and cc["a"]:
+                            todo.append(cc["a"][0])
+                        else:
+                            created.add(("other", r[1]))
+                    else:
+                        created.add(("other", r))
+            if loops is None:
+                loops = _c.natural_loops(succ, 0)
+            in_loops = [body for h, body in loops.items() if bb in body]
+            ok = bool(created) and all(isinstance(x, int) for x in created) and \
+                all(all(x in body for x in created) for body in in_loops)
+            chk.check(ok, "R30c", key,
+                      "the token inserted into diagnostic_tokens here is %s: several file ids share one token, so a later request for one "
+                      "of them cancels the pending diagnosis of the others and their published sets stay stale"
+                      % ("created outside the loop that inserts it" if created and all(isinstance(x, int) for x in created) else "not a fresh CancellationToken::new()"),
+                      b.loc(c["l"]), sample={"rule": "R30c", "site": key, "verdict": "fresh token per insert"})
+    chk.floor("inserts into diagnostic_tokens", nins, 1)
     chk.explanation = "Siblings cross-check: forward reachability from every removal call to the clear call (or to the caller that receives the removed uris)."
